@@ -47,6 +47,7 @@ type engAct struct {
 	H    int      `json:"h"`
 	Rid  int      `json:"rid"`
 	Mode string   `json:"mode"`
+	Re   bool     `json:"re"` // express: the callback expresses the same Interest again, synchronously, when it is told Data or Nack
 }
 
 // the last names differ only in the (non-minimal) encoding of a segment number: Component.String() prints both as seg=1
@@ -88,6 +89,7 @@ type engExec struct {
 	reply  map[int]func(enc.Wire) error
 	data   map[int]engData
 	hset   map[string]bool
+	reexp  []map[string]any // Interests expressed from inside callbacks during the current step (logged right after it)
 }
 
 func (x *engExec) advance(d time.Duration) {
@@ -127,11 +129,33 @@ func (x *engExec) step(a engAct) (row map[string]any) {
 			x.mu.Lock()
 			x.cur = append(x.cur, engFired{id, res})
 			x.mu.Unlock()
+			if a.Re && r.Result != ndn.InterestResultTimeout {
+				// what applications do: ask again from inside the callback (next segment, retry after a Nack)
+				x.mu.Lock()
+				x.nextId++
+				id2 := x.nextId
+				x.mu.Unlock()
+				i2, err := spec.Spec{}.MakeInterest(nm(joinName(a.N)), &ndn.InterestConfig{CanBePrefix: a.Cbp, Lifetime: utils.IdPtr(time.Duration(a.Life) * etick), Nonce: utils.IdPtr(uint64(id2))}, nil, nil)
+				if err != nil {
+					panic(err)
+				}
+				if err := x.eng.Express(i2, func(r2 ndn.ExpressCallbackArgs) {
+					res2 := map[ndn.InterestResult]string{ndn.InterestResultData: "data", ndn.InterestResultNack: "nack", ndn.InterestResultTimeout: "timeout"}[r2.Result]
+					x.mu.Lock()
+					x.cur = append(x.cur, engFired{id2, res2})
+					x.mu.Unlock()
+				}); err != nil {
+					panic(err)
+				}
+				x.mu.Lock()
+				x.reexp = append(x.reexp, map[string]any{"ev": "express", "id": id2, "n": a.N, "cbp": a.Cbp, "dig": -1, "life": a.Life, "re": false, "from": id, "fired": []engFired{}})
+				x.mu.Unlock()
+			}
 		})
 		if err != nil {
 			panic(err)
 		}
-		ev["id"], ev["n"], ev["cbp"], ev["dig"], ev["life"] = id, a.N, a.Cbp, a.Dig, a.Life
+		ev["id"], ev["n"], ev["cbp"], ev["dig"], ev["life"], ev["re"] = id, a.N, a.Cbp, a.Dig, a.Life, a.Re
 	case "data":
 		// a.W is the digest id of one wire of the table; its name is the Data name
 		x.face.FeedPacket(x.data[a.W].wire)
@@ -230,6 +254,14 @@ func runEngExecution(t *testing.T, w *traceWriter, mode string, next func(x *eng
 			}
 			w.Emit(row)
 			n++
+			x.mu.Lock()
+			re := x.reexp
+			x.reexp = nil
+			x.mu.Unlock()
+			for _, r := range re { // (instantaneous steps only: the new Interest starts at the time of that step)
+				w.Emit(r)
+				n++
+			}
 			if row["ev"] == "P" {
 				return
 			}
@@ -251,7 +283,7 @@ func genEngAct(rng *rand.Rand, x *engExec) engAct {
 	switch k := rng.Intn(100); {
 	case k < 33:
 		n := engNames[rng.Intn(len(engNames))]
-		a := engAct{Ev: "express", N: strs(n), Cbp: rng.Intn(3) == 0, Dig: -1, Life: 1 + rng.Intn(4)}
+		a := engAct{Ev: "express", N: strs(n), Cbp: rng.Intn(3) == 0, Dig: -1, Life: 1 + rng.Intn(4), Re: rng.Intn(5) == 0}
 		if rng.Intn(6) == 0 { // ask for the digest of one particular wire under that name
 			var cands []int
 			for i, dn := range engDNames {
